@@ -228,6 +228,11 @@ func (bsp *batchSpanProcessor) ForceFlush(ctx context.Context) error {
 			case <-ctx.Done():
 				return ctx.Err()
 			}
+		} else if err := ctx.Err(); err != nil {
+			// The flush marker could not be queued before the context was
+			// done: spans queued before this call may still be in the queue,
+			// so the flush has not happened.
+			return err
 		}
 
 		wait := make(chan error, 1)
